@@ -232,6 +232,10 @@ func attributeTo(property string, v Violation, res *Result) (Violation, bool) {
 			return Violation{Prop: "C09", Check: "C09.queue-bookkeeping", Disc: v.Disc, Step: v.Step, Detail: v.Detail}, true
 		case v.Prop == "C16" || v.Prop == "C01" || v.Prop == "C15":
 			return v, false
+		case v.Check == "C08.update-revision-mismatch" && v.Disc == "int-above-2^53-rounded":
+			// the revision encoding rounds such integers with or without faults; it is
+			// judged (and listed as known finding K2) under C08 only
+			return v, false
 		default:
 			return Violation{Prop: "C09", Check: "C09.unsafe-partial", Disc: v.Check + ":" + v.Disc, Step: v.Step, Detail: v.Detail}, true
 		}
